@@ -148,15 +148,24 @@ def observe_dtype_render(fx, np, props, t, cplx, route):
         Fxp = fx.Fxp
         val = (1 + 1j) if cplx else None
         notation = {'dtype-default': 'fxp', 'dtype-Q': 'Q', 'get_dtype(fxp)|fxp': 'fxp', 'get_dtype(Q)|fxp': 'Q',
-                    'get_dtype(fxp)|Q': 'fxp', 'get_dtype(Q)|Q': 'Q', 'get_dtype()|Q': 'Q', 'get_dtype()|fxp': 'fxp'}[route]
+                    'get_dtype(fxp)|Q': 'fxp', 'get_dtype(Q)|Q': 'Q', 'get_dtype()|Q': 'Q', 'get_dtype()|fxp': 'fxp'}['|'.join(route.split('|')[:2])]
         if route == 'dtype-default':
             st = Fxp(val, bool(s), w, f).dtype
         elif route == 'dtype-Q':
             st = Fxp(val, bool(s), w, f, dtype_notation='Q').dtype
         else:
-            call, conf = route.split('|')
-            x = Fxp(val, bool(s), w, f, dtype_notation=conf)
+            parts = route.split('|')
+            call, conf = parts[0], parts[1]
+            hist = parts[2] if len(parts) > 2 else ''
             arg = call[len('get_dtype('):-1]
+            if hist == 'reconf':          # history: lived (and was asked) under the OTHER default, then reconfigured
+                x = Fxp(val, bool(s), w, f, dtype_notation={'Q': 'fxp', 'fxp': 'Q'}[conf])
+                x.get_dtype(); x.get_dtype(conf)
+                x.config.dtype_notation = conf
+            else:
+                x = Fxp(val, bool(s), w, f, dtype_notation=conf)
+            if hist.startswith('after('):  # history: an earlier query in (possibly) another notation
+                x.get_dtype(hist[len('after('):-1])
             st = x.get_dtype(arg) if arg else x.get_dtype()
         return dict(row, notation=notation, str=chars(st))
     except Exception as ex:
@@ -176,6 +185,9 @@ def observe_dtype_parse(fx, np, props, t, cplx, string, spelling, route):
         elif route == 'resize':
             y = Fxp(None, True, 7, 3)
             y.resize(dtype=string)
+        elif route == 'resize-same':         # history: the object already has exactly these sizes (real-valued, holding a value)
+            y = Fxp(0.0, bool(s), w, f)
+            y.resize(dtype=string)
         elif route == 'roundtrip':           # constructing with dtype = x.dtype reproduces x's format
             x = Fxp((1 + 1j) if cplx else None, bool(s), w, f, dtype_notation='Q' if spelling.startswith('Q') else 'fxp')
             y = Fxp(None, dtype=x.dtype)
@@ -188,7 +200,7 @@ def observe_dtype_parse(fx, np, props, t, cplx, string, spelling, route):
             return dict(row, z={'s': bool(sg), 'w': int(nw), 'f': int(nf)}, zc=bool(cplx))
         else:
             raise ValueError(route)
-        zc = bool(y.vdtype == complex) if route in ('ctor', 'resize', 'roundtrip') else bool(cplx)
+        zc = bool(y.vdtype == complex) if route in ('ctor', 'resize', 'resize-same', 'roundtrip') else bool(cplx)
         return dict(row, z=fmt_of(y), zc=zc, zstr=chars(y.dtype))
     except Exception as ex:
         return dict(row, k='error', err=type(ex).__name__, msg=str(ex)[:200])
